@@ -11,302 +11,238 @@ from ..report import Ctx
 from .common import EVALUATOR, INDIVIDUAL, PROBLEM, check_yields_all, receiver_may_be
 
 LEVEL_TEXT = (
-    "Static rules over every Evaluator.evaluate_async implementation and every Problem.evaluate implementation: "
-    "(R1) on each per-individual path eval_single, register_evaluation and set_fitness occur together, exactly once, "
-    "on the individual just evaluated, and only under 'not has_fitness(problem)' (guard or filtered sequence); "
-    "(R2) parallel results come from an order-preserving map over the very sequence they are zipped with; (R3) "
-    "eval_single evaluates individual.get_phenotype(); the multi-objective default aggregate is "
-    "sum(-f if minimised else f) under both flag values (single-objective polarity is C12.R2); (R4) the counter is "
-    "written only by register_evaluation, and Problem.evaluate is called only from eval_single (allow-list with "
-    "reasons); (R5) every path of every Problem.evaluate invokes the user's fitness function exactly once, "
-    "following callables stored in the constant-key dict self.ff and closures. Decides these shapes for all "
-    "populations, caches and worker timings; does not run an evaluator."
+    "Finite-model interpretation of the source (abstract interpretation over symbolic individuals; nothing is executed) "
+    "plus who-may-call rules. (R1/R2) every Evaluator.evaluate_async is interpreted, with the evaluator's own methods and "
+    "local closures inlined, on ten batches of symbolic individuals (cached / uncached / duplicated / empty); pool maps "
+    "apply the mapped closure per element and unordered maps return results in reverse order; required: eval_single "
+    "exactly once per distinct uncached individual and never for a cached one, as many register_evaluation calls, "
+    "set_fitness(problem, <the value computed for that very individual>) once each, the whole batch yielded in order. "
+    "(R3) eval_single returns problem.evaluate(<that individual's phenotype>), called once; every Problem class is "
+    "interpreted (__init__ then evaluate) with a symbolic fitness function: components are the raw values and the default "
+    "aggregate is -f/+f (single) or the sum of (-f if minimised else f) for list and bool 'minimize'. (R4) the counter is "
+    "written only by register_evaluation, which only evaluators call on themselves; Problem.evaluate is called only from "
+    "eval_single (allow-list with reasons). (R5) in every interpreted trace of every Problem.evaluate, with and without "
+    "user aggregate callables, the fitness function is invoked exactly once. Decides these shapes for all populations, "
+    "caches and worker timings; does not run an evaluator."
 )
 
 
-def _has_fitness_guard(test: ast.AST, ind: Optional[str]) -> Optional[bool]:
-    """polarity under which 'not X.has_fitness(...)' holds: returns True if test == not has_fitness, False if
-    test == has_fitness, None otherwise."""
-    neg = False
-    t = test
-    while isinstance(t, ast.UnaryOp) and isinstance(t.op, ast.Not):
-        neg = not neg
-        t = t.operand
-    if isinstance(t, ast.Call) and call_name(t) == "has_fitness" and isinstance(t.func, ast.Attribute):
-        recv = t.func.value
-        if ind is None or (isinstance(recv, ast.Name) and recv.id == ind):
-            return neg
-    return None
+BATCHES = [
+    ((), ()),
+    (("u1",), ()),
+    (("c1",), ("c1",)),
+    (("u1", "c1"), ("c1",)),
+    (("c1", "u1"), ("c1",)),
+    (("u1", "u2"), ()),
+    (("u1", "u1"), ()),
+    (("u1", "c1", "u2"), ("c1",)),
+    (("u2", "u1", "u2"), ()),
+    (("c1", "c2"), ("c1", "c2")),
+]
+ORDERED_MAPS = ("map", "imap", "starmap")
+UNORDERED_MAPS = ("uimap", "imap_unordered", "amap", "map_async", "uimap_unordered")
 
 
-def _filtered_by_cache(fn: FunctionInfo, name: str) -> bool:
-    """Is local *name* bound (once) to an expression whose elements are filtered by 'not v.has_fitness(problem)'?"""
-    defs = [n for n in walk_local(fn.node) if isinstance(n, ast.Assign)
-            and any(isinstance(t, ast.Name) and t.id == name for t in n.targets)]
-    if len(defs) != 1:
-        return False
-    for c in ast.walk(defs[0].value):
-        if isinstance(c, (ast.ListComp, ast.SetComp, ast.DictComp, ast.GeneratorExp)):
-            for g in c.generators:
-                if isinstance(g.target, ast.Name):
-                    for cond in g.ifs:
-                        if _has_fitness_guard(cond, g.target.id) is True:
-                            return True
-        if isinstance(c, ast.Call) and call_name(c) == "filter" and c.args and isinstance(c.args[0], ast.Lambda):
-            lam = c.args[0]
-            if lam.args.args and _has_fitness_guard(lam.body, lam.args.args[0].arg) is True:
-                return True
-    return False
+def _evaluator_model(ctx: Ctx, cls, f: FunctionInfo, batch: tuple, cached0: tuple):
+    """Interpret <cls>.evaluate_async(problem, batch) over symbolic individuals; has_fitness / set_fitness are a little
+    state machine (the cache), eval_single returns the symbolic value 'fit:<individual>', pool maps apply the mapped local
+    function to each element (unordered maps return results in reverse order: an adversarial schedule)."""
+    from ..modelinterp import Interp, Sym, UNKNOWN, Effect, LocalFn, _NONE
+    state = {"cached": set(cached0), "maps": []}
+
+    def reset():
+        state["cached"] = set(cached0)
+        state["maps"] = []
+
+    def atom(it, e, env):
+        return None
+
+    def call_model(it, call, env, args, kwargs):
+        nm = call_name(call)
+        recv = it.ev(call.func.value, env, 9) if isinstance(call.func, ast.Attribute) else None
+        if nm == "has_fitness" and isinstance(recv, Sym):
+            return recv.tag in state["cached"]
+        if nm == "set_fitness" and isinstance(call.func, ast.Attribute):
+            it.trace.append(Effect("call", "set_fitness", tuple(args), kwargs, node=call, fn=it.fn_stack[-1], recv=recv))
+            if isinstance(recv, Sym):
+                state["cached"].add(recv.tag)
+            return _NONE
+        if nm == "eval_single" and isinstance(call.func, ast.Attribute) and isinstance(call.func.value, ast.Name) \
+                and call.func.value.id == "self":
+            it.trace.append(Effect("call", "eval_single", tuple(args), kwargs, node=call, fn=it.fn_stack[-1]))
+            ind = args[1] if len(args) > 1 else kwargs.get("individual")
+            return Sym("fit:" + ind.tag) if isinstance(ind, Sym) else UNKNOWN
+        if nm == "register_evaluation" and isinstance(call.func, ast.Attribute):
+            it.trace.append(Effect("call", "register_evaluation", (), {}, node=call, fn=it.fn_stack[-1]))
+            return _NONE
+        if nm in ORDERED_MAPS + UNORDERED_MAPS and len(args) >= 2 and isinstance(args[1], list) \
+                and (isinstance(call.func, ast.Attribute) or nm == "map"):
+            fn_ = args[0]
+            state["maps"].append(nm)
+            if isinstance(fn_, LocalFn):
+                out = [it.call_local(fn_, [x], {}, 1, env) for x in args[1]]
+            else:
+                return UNKNOWN
+            return out if nm in ORDERED_MAPS else list(reversed(out))
+        return None
+
+    it = Interp(ctx.prog, cls, atom, call_model, max_depth=5, max_traces=32)
+    it.on_start = reset
+    inds = [Sym(t) for t in batch]
+    env = {"self": Sym("self"), f.params[1]: Sym("problem"), f.params[2]: inds}
+    return it.run(f, env), state
 
 
 def rule_r1_r2(ctx: Ctx) -> None:
-    prog, res = ctx.prog, ctx.res
-    impls = prog.implementations(EVALUATOR, "evaluate_async")
-    ctx.floor("C13.R1", len(impls), 2, "evaluate_async implementations")
-    for f in impls:
-        problem_p, indivs_p = f.params[1], f.params[2]
-        # ---- evaluation sites
-        direct = [c for c in res.calls_in(f, include_nested=False) if call_name(c) == "eval_single" and is_self_attr(c.func)]
-        mapped = []
-        for c in res.calls_in(f, include_nested=False):
-            if isinstance(c.func, ast.Attribute) and c.func.attr in ("map", "imap", "uimap", "amap", "starmap") and len(c.args) >= 2 \
-                    and isinstance(c.args[0], ast.Name):
-                loc = res._local_def(f, c.args[0].id)
-                if loc is not None and any(call_name(x) == "eval_single" for x in ast.walk(loc.node) if isinstance(x, ast.Call)):
-                    mapped.append(c)
-        if not direct and not mapped:
-            ctx.ob("C13.R1", f, f.node, "evaluation site", None, "no eval_single use found in this evaluator")
+    """Model check: every evaluate_async implementation is interpreted on ten batches of symbolic individuals (cached /
+    uncached, duplicates, empty) with methods of the evaluator inlined through the class hierarchy.  Reference semantics:
+    eval_single exactly once for each distinct individual without a cached fitness and never for a cached one;
+    register_evaluation as often as eval_single; each evaluated individual gets set_fitness(problem, <its own value>)
+    once; the batch is yielded complete and in order."""
+    from ..modelinterp import Sym, UNKNOWN, Budget
+    prog = ctx.prog
+    n = 0
+    for cls in prog.subclasses(EVALUATOR):
+        f = prog.lookup_method(cls, "evaluate_async")
+        if f is None or f.cls is None or f.cls.fullname == EVALUATOR:
             continue
-        # ---- direct sites: path pairing inside the enclosing loop body
-        for site in direct:
-            ind = site.args[1].id if len(site.args) > 1 and isinstance(site.args[1], ast.Name) else None
-            loop = next((a for a in _ancestors(site) if isinstance(a, (ast.For, ast.AsyncFor))), None)
-            body = loop.body if loop is not None else f.node.body
-            # every path of the per-individual code that reaches the site carries 'not ind.has_fitness(problem)'
-            # (enclosing if, or an early 'if has_fitness: ...; continue')
-            site_stmt = enclosing_stmt(site)
-            guarded = True
-            reached = 0
-            for pth in paths(body, unroll_loops=False):
-                if not any(st is site_stmt for st in stmts_on(pth)):
+        n += 1
+        fails: dict[str, tuple] = {}
+        undecided = []
+        used_maps = set()
+        for batch, cached in BATCHES:
+            try:
+                results, state = _evaluator_model(ctx, cls, f, batch, cached)
+            except Budget:
+                undecided.append(f"batch {batch}: too many interpretations")
+                continue
+            want_eval = []
+            for t in batch:
+                if t not in cached and t not in want_eval:
+                    want_eval.append(t)
+            for trace, rv, notes in results:
+                evals, regs, sets, ys = [], 0, [], []
+                opaque = False
+                for e in trace:
+                    if e.kind == "call" and e.name == "eval_single":
+                        a = e.args[1] if len(e.args) > 1 else e.kwargs.get("individual")
+                        evals.append(a.tag if isinstance(a, Sym) else "?")
+                    elif e.kind == "call" and e.name == "register_evaluation":
+                        regs += 1
+                    elif e.kind == "call" and e.name == "set_fitness":
+                        val = e.args[1] if len(e.args) > 1 else e.kwargs.get("fitness", UNKNOWN)
+                        prob = e.args[0] if e.args else e.kwargs.get("problem")
+                        sets.append((e.recv.tag if isinstance(e.recv, Sym) else "?", val.tag if isinstance(val, Sym) else "?",
+                                     prob.tag if isinstance(prob, Sym) else "?"))
+                    elif e.kind == "yield":
+                        v = e.args[0]
+                        if e.name == "from":
+                            if isinstance(v, list):
+                                ys.extend(x.tag if isinstance(x, Sym) else "?" for x in v)
+                            else:
+                                opaque = True
+                        else:
+                            ys.append(v.tag if isinstance(v, Sym) else "?")
+                for mp in state["maps"]:
+                    used_maps.add(mp)
+                scen = {"batch": list(batch), "cached": list(cached)}
+                if "?" in evals or any("?" in s_ for s_ in sets) or opaque or "?" in ys:
+                    undecided.append(f"batch {list(batch)}: the interpreter lost track of an individual or value")
                     continue
-                reached += 1
-                cs = []
-                for ev_ in pth:
-                    if ev_[0] == "stmt" and ev_[1] is site_stmt:
-                        break
-                    if ev_[0] == "cond":
-                        cs.append((ev_[1], ev_[2]))
-                if not any(_has_fitness_guard(t, ind) is not None and _has_fitness_guard(t, ind) == pol for t, pol in cs):
-                    guarded = False
-            guarded = guarded and reached > 0
-            ctx.ob("C13.R1", f, site, "eval_single only for individuals without a cached fitness", guarded,
-                   "" if guarded else "eval_single is reached for individuals that already have a fitness for the "
-                                      "problem: they are evaluated and counted again")
-            _pair_paths(ctx, f, body, ind, problem_p, site)
-        # ---- mapped sites (parallel)
-        for site in mapped:
-            seq = site.args[1]
-            seqname = seq.id if isinstance(seq, ast.Name) else None
-            ok_f = seqname is not None and _filtered_by_cache(f, seqname)
-            ctx.ob("C13.R1", f, site, "mapped sequence holds only individuals without a cached fitness", ok_f,
-                   "" if ok_f else "the pool maps eval_single over individuals that may already have a fitness: "
-                                   "cached individuals are evaluated and counted again")
-            order_ok = site.func.attr in ("map", "imap", "starmap")
-            st = enclosing_stmt(site)
-            resname = st.targets[0].id if isinstance(st, ast.Assign) and isinstance(st.targets[0], ast.Name) else None
-            zips = [l for l in walk_local(f.node) if isinstance(l, (ast.For, ast.AsyncFor)) and isinstance(l.iter, ast.Call)
-                    and call_name(l.iter) == "zip"]
-            paired = False
-            why = "results are not consumed by 'for i, f in zip(<mapped sequence>, <results>)'"
-            for l in zips:
-                a = l.iter.args
-                if len(a) == 2 and isinstance(a[0], ast.Name) and isinstance(a[1], ast.Name) and a[1].id == resname:
-                    if a[0].id == seqname:
-                        paired = True
-                        if isinstance(l.target, ast.Tuple) and len(l.target.elts) == 2 \
-                                and all(isinstance(e, ast.Name) for e in l.target.elts):
-                            _pair_paths(ctx, f, l.body, l.target.elts[0].id, problem_p, None,
-                                        value_name=l.target.elts[1].id)
-                    else:
-                        why = f"results of map over '{seqname}' are zipped with '{a[0].id}': fitness values are " \
-                              f"attached to the wrong individuals"
-            ctx.ob("C13.R2", f, site, "results zipped with the sequence that was mapped, order preserved",
-                   paired and order_ok, "" if paired and order_ok else
-                   (why if not paired else f"pool.{site.func.attr} does not preserve input order"))
-        # ---- every input individual is yielded (trackers post-process what is yielded)
-        check_yields_all(ctx, "C13.R1", f)
-
-
-def _ancestors(n):
-    from ..frontend import ancestors
-    return ancestors(n)
-
-
-def _pair_paths(ctx: Ctx, f: FunctionInfo, body: list[ast.stmt], ind: Optional[str], problem_p: str,
-                site: Optional[ast.Call], value_name: Optional[str] = None) -> None:
-    """On every path through *body*: #register_evaluation == #set_fitness == (#eval_single or 1 when mapped),
-    set_fitness(problem, value) on *ind* with the value computed for it."""
-    for i, p in enumerate(paths(body, unroll_loops=False)):
-        n_eval = n_reg = n_set = 0
-        set_ok = True
-        valname = value_name
-        for st in stmts_on(p):
-            for c in [x for x in ast.walk(st) if isinstance(x, ast.Call)]:
-                nm = call_name(c)
-                if nm == "eval_single" and is_self_attr(c.func):
-                    n_eval += 1
-                    ps = parent(c)
-                    if isinstance(ps, ast.Assign) and isinstance(ps.targets[0], ast.Name):
-                        valname = ps.targets[0].id
-                elif nm == "register_evaluation" and is_self_attr(c.func):
-                    n_reg += 1
-                elif nm == "set_fitness" and isinstance(c.func, ast.Attribute):
-                    n_set += 1
-                    recv_ok = isinstance(c.func.value, ast.Name) and (ind is None or c.func.value.id == ind)
-                    val = c.args[1] if len(c.args) > 1 else None
-                    val_ok = isinstance(val, ast.Name) and val.id == valname or \
-                        (isinstance(val, ast.Call) and call_name(val) == "eval_single")
-                    prob_ok = bool(c.args) and isinstance(c.args[0], ast.Name) and c.args[0].id == problem_p
-                    set_ok = set_ok and recv_ok and val_ok and prob_ok
-        expected = n_eval if value_name is None else 1
-        ok = n_reg == expected and n_set == expected and set_ok
-        if value_name is None and n_eval == 0 and n_reg == 0 and n_set == 0:
-            ok = True
-        cond = ", ".join(f"{norm(t)}={pol}" for t, pol in conds_on(p)) or "unconditional"
-        ctx.ob("C13.R1", f, body[0], f"evaluate/count/store pairing on path [{cond}]"[:120], ok,
-               "" if ok else f"on this path: {n_eval if value_name is None else 1} evaluation(s), {n_reg} "
-                             f"register_evaluation, {n_set} set_fitness"
-                             f"{'' if set_ok else ' (stored on another individual / another value / another problem)'}",
-               witness={"evals": n_eval, "registered": n_reg, "stored": n_set})
+                if sorted(evals) != sorted(want_eval):
+                    extra = [t for t in evals if t in cached]
+                    why = (f"individuals {extra} already have a fitness for the problem and are evaluated again" if extra else
+                           f"eval_single runs for {evals}, expected once for each of {want_eval}")
+                    fails.setdefault("eval_single exactly once per distinct individual without cached fitness",
+                                     ("C13.R1", why, dict(scen, evaluated=evals)))
+                if regs != len(evals):
+                    fails.setdefault("register_evaluation count equals the number of evaluations",
+                                     ("C13.R1", f"{len(evals)} evaluation(s) but {regs} register_evaluation call(s) "
+                                                f"for batch {list(batch)} (cached: {list(cached)})",
+                                      dict(scen, evaluations=len(evals), registered=regs)))
+                want_sets = sorted((t, "fit:" + t, "problem") for t in evals)
+                if sorted(sets) != want_sets:
+                    wrong = [s_ for s_ in sets if s_[1] != "fit:" + s_[0]]
+                    rule = "C13.R2" if state["maps"] else "C13.R1"
+                    why = (f"set_fitness stores {wrong[0][1]} on individual {wrong[0][0]}: fitness values are attached to "
+                           f"the wrong individuals" + (f" (results of pool.{state['maps'][0]} in completion order)"
+                                                        if state["maps"] and state["maps"][0] in UNORDERED_MAPS else "")
+                           if wrong else f"set_fitness calls {sets}, expected {want_sets}")
+                    fails.setdefault("each evaluated individual stores its own value once (set_fitness(problem, value))",
+                                     (rule, why, dict(scen, stored=[list(x) for x in sets])))
+                if ys != list(batch):
+                    fails.setdefault("the whole batch is yielded, in order",
+                                     ("C13.R1", f"batch {list(batch)} (cached: {list(cached)}) yields {ys}: trackers only see "
+                                                f"what is yielded", dict(scen, yielded=ys)))
+        aspects = ["eval_single exactly once per distinct individual without cached fitness",
+                   "register_evaluation count equals the number of evaluations",
+                   "each evaluated individual stores its own value once (set_fitness(problem, value))",
+                   "the whole batch is yielded, in order"]
+        for a in aspects:
+            if a in fails:
+                rule, why, wit = fails[a]
+                ctx.ob(rule, f, f.node, f"{cls.name}: {a}", False, why, witness=wit)
+            elif undecided:
+                ctx.ob("C13.R1", f, f.node, f"{cls.name}: {a}", None, "; ".join(sorted(set(undecided))[:3]))
+            else:
+                rule = "C13.R2" if (a.startswith("each evaluated") and used_maps) else "C13.R1"
+                ctx.ob(rule, f, f.node, f"{cls.name}: {a}", True,
+                       f"interpreted on {len(BATCHES)} batches" + (f"; pool maps modelled: {sorted(used_maps)}" if used_maps else ""))
+    ctx.floor("C13.R1", n, 2, "evaluate_async implementations")
 
 
 def rule_r3(ctx: Ctx) -> None:
+    """eval_single is interpreted on a symbolic individual: on every path it returns problem.evaluate(<that individual's
+    phenotype>), evaluated exactly once.  The default multi-objective aggregate is part of the Problem model (rule_r5)."""
+    from ..modelinterp import Interp, Sym, UNKNOWN, Effect, Budget
     prog = ctx.prog
     n = 0
+    seen = set()
     for c in prog.subclasses(EVALUATOR, strict=False):
-        f = c.methods.get("eval_single")
-        if f is None:
+        f = prog.lookup_method(c, "eval_single")
+        if f is None or f in seen:
             continue
+        seen.add(f)
         n += 1
-        ind = f.params[2]
-        calls = [x for x in walk_local(f.node) if isinstance(x, ast.Call) and call_name(x) == "evaluate"]
-        ok, why = False, "eval_single does not return problem.evaluate(individual.get_phenotype())"
-        if len(calls) == 1:
-            arg = calls[0].args[0] if calls[0].args else next((k.value for k in calls[0].keywords if k.arg == "phenotype"), None)
-            src = arg
-            if isinstance(arg, ast.Name):
-                ds = [a for a in walk_local(f.node) if isinstance(a, ast.Assign) and isinstance(a.targets[0], ast.Name)
-                      and a.targets[0].id == arg.id]
-                src = ds[0].value if len(ds) == 1 else None
-            ph_ok = isinstance(src, ast.Call) and call_name(src) == "get_phenotype" \
-                and isinstance(src.func, ast.Attribute) and isinstance(src.func.value, ast.Name) and src.func.value.id == ind
-            # returned value is the evaluate result
-            rets = [r for r in walk_local(f.node) if isinstance(r, ast.Return) and r.value is not None]
-            ret_ok = False
-            for r in rets:
-                if r.value is calls[0]:
-                    ret_ok = True
-                elif isinstance(r.value, ast.Name):
-                    ps = parent(calls[0])
-                    ret_ok = isinstance(ps, ast.Assign) and isinstance(ps.targets[0], ast.Name) and ps.targets[0].id == r.value.id
-            ok = ph_ok and ret_ok and len(rets) == 1
-            if not ph_ok:
-                why = "the value handed to problem.evaluate is not this individual's phenotype"
-        ctx.ob("C13.R3", f, f.node, "eval_single = problem.evaluate(individual.get_phenotype())", ok, "" if ok else why)
-    ctx.floor("C13.R3", n, 1, "eval_single definitions")
 
-    # multi-objective default aggregate: sum over components of (-f if minimised else f)
-    for cls in prog.subclasses(PROBLEM):
-        for f in cls.module.functions.values():
-            if f.parent is None or f.parent.cls is not cls:
+        def call_model(it, call, env, args, kwargs):
+            nm = call_name(call)
+            recv = it.ev(call.func.value, env, 9) if isinstance(call.func, ast.Attribute) else None
+            if nm == "get_phenotype" and isinstance(recv, Sym):
+                return Sym("phen:" + recv.tag)
+            if nm == "evaluate" and isinstance(recv, Sym) and recv.tag == "problem":
+                a = args[0] if args else kwargs.get("phenotype")
+                it.trace.append(Effect("call", "evaluate", (a,), {}, node=call, fn=it.fn_stack[-1]))
+                return Sym("fitof:" + (a.tag if isinstance(a, Sym) else "?"))
+            return None
+
+        it = Interp(prog, c, lambda *_: None, call_model, max_depth=4)
+        env = {"self": Sym("self"), f.params[1]: Sym("problem"), f.params[2]: Sym("ind")}
+        try:
+            results = it.run(f, env)
+        except Budget:
+            ctx.ob("C13.R3", f, f.node, "eval_single = problem.evaluate(individual.get_phenotype())", None, "too many interpretations")
+            continue
+        ok, why = True, ""
+        for trace, rv, notes in results:
+            evs = [e for e in trace if e.kind == "call" and e.name == "evaluate"]
+            if any(e.kind == "raise" for e in trace):
                 continue
-            sums = [x for x in walk_local(f.node) if isinstance(x, ast.Call) and call_name(x) == "sum" and x.args
-                    and isinstance(x.args[0], (ast.GeneratorExp, ast.ListComp))]
-            for s in sums:
-                g = s.args[0]
-                if not any(_reads_attr(z, "minimize") for z in ast.walk(g)) and not any(
-                        _reads_attr(z, "minimize") for t, _ in guards(s, stop=f.node) for z in ast.walk(t)):
-                    continue
-                tgt = g.generators[0].target
-                it = g.generators[0].iter
-                fit = mflag = None
-                if isinstance(tgt, ast.Tuple) and len(tgt.elts) == 2 and isinstance(it, ast.Call) and call_name(it) == "zip":
-                    # which of the two zip arguments is the minimise list?
-                    for k, a in enumerate(it.args[:2]):
-                        if _reads_attr(a, "minimize"):
-                            mflag = tgt.elts[k].id
-                            fit = tgt.elts[1 - k].id
-                elif isinstance(tgt, ast.Name):
-                    fit = tgt.id
-                if fit is None:
-                    ctx.ob("C13.R3", f, s, "default aggregate element", None, "cannot identify component / flag variables")
-                    continue
-                for flag in (True, False):
-                    sign = _elem_sign(g.elt, fit, mflag, flag)
-                    want = -1 if flag else 1
-                    ctx.ob("C13.R3", f, s, f"default aggregate term sign when minimised={flag} ({'list' if mflag else 'bool'} form)",
-                           (sign == want) if sign is not None else None,
-                           "" if sign == want else f"term is {'+' if sign == 1 else '-' if sign == -1 else '?'}f when "
-                                                   f"minimised={flag}; the aggregate would prefer the wrong direction",
-                           witness={"minimised": flag, "sign": sign})
+            if len(evs) != 1:
+                ok, why = False, f"problem.evaluate is called {len(evs)} times in eval_single"
+            elif not (isinstance(evs[0].args[0], Sym) and evs[0].args[0].tag == "phen:ind"):
+                ok, why = False, f"the value handed to problem.evaluate is {evs[0].args[0]!r}, not this individual's phenotype"
+            elif not (isinstance(rv, Sym) and rv.tag == "fitof:phen:ind"):
+                ok = None if rv is UNKNOWN else False
+                why = f"eval_single returns {rv!r}, not the result of problem.evaluate(individual.get_phenotype())"
+            if ok is not True:
+                break
+        ctx.ob("C13.R3", f, f.node, "eval_single = problem.evaluate(individual.get_phenotype())", ok, why)
+    ctx.floor("C13.R3", n, 1, "eval_single definitions")
 
 
 def _reads_attr(n: ast.AST, attr: str) -> bool:
     return any(isinstance(x, ast.Attribute) and x.attr == attr for x in ast.walk(n))
-
-
-def _elem_sign(e: ast.AST, fit: str, mflag: Optional[str], flag: bool) -> Optional[int]:
-    """Sign (+1/-1) of the element expression relative to *fit* when the minimise flag is *flag*."""
-    def is_flag(t: ast.AST) -> Optional[bool]:
-        neg = False
-        while isinstance(t, ast.UnaryOp) and isinstance(t.op, ast.Not):
-            neg, t = not neg, t.operand
-        if (mflag is not None and isinstance(t, ast.Name) and t.id == mflag) or (mflag is None and _reads_attr(t, "minimize")):
-            return flag != neg
-        return None
-
-    def ev(x: ast.AST) -> Optional[int]:
-        if isinstance(x, ast.Name) and x.id == fit:
-            return 1
-        if isinstance(x, ast.UnaryOp) and isinstance(x.op, (ast.USub, ast.UAdd)):
-            v = ev(x.operand)
-            return None if v is None else (-v if isinstance(x.op, ast.USub) else v)
-        if isinstance(x, ast.IfExp):
-            t = is_flag(x.test)
-            if t is None:
-                return None
-            return ev(x.body if t else x.orelse)
-        if isinstance(x, ast.BoolOp):
-            # value semantics of  A and B or C  with B a non-zero number:  B if A else C
-            if isinstance(x.op, ast.Or) and len(x.values) == 2 and isinstance(x.values[0], ast.BoolOp) \
-                    and isinstance(x.values[0].op, ast.And) and len(x.values[0].values) == 2:
-                t = is_flag(x.values[0].values[0])
-                if t is None:
-                    return None
-                return ev(x.values[0].values[1]) if t else ev(x.values[1])
-            return None
-        if isinstance(x, ast.BinOp) and isinstance(x.op, ast.Mult):
-            for a, b in ((x.left, x.right), (x.right, x.left)):
-                va = ev(a)
-                if va is not None:
-                    if isinstance(b, ast.Constant) and isinstance(b.value, (int, float)) and b.value != 0:
-                        return va * (1 if b.value > 0 else -1)
-                    if isinstance(b, ast.IfExp):
-                        t = is_flag(b.test)
-                        if t is not None:
-                            c = b.body if t else b.orelse
-                            if isinstance(c, ast.UnaryOp) and isinstance(c.op, ast.USub) and isinstance(c.operand, ast.Constant):
-                                return -va
-                            if isinstance(c, ast.Constant) and isinstance(c.value, (int, float)) and c.value != 0:
-                                return va * (1 if c.value > 0 else -1)
-            return None
-        if isinstance(x, ast.Call) and call_name(x) == "float" and x.args:
-            return ev(x.args[0])
-        return None
-
-    # the sum may sit under an if on the flag (bool form): guards are evaluated by the caller through IfExp only
-    return ev(e)
 
 
 def rule_r4(ctx: Ctx) -> None:
@@ -355,9 +291,10 @@ def rule_r4(ctx: Ctx) -> None:
         for c in res.calls_in(f, include_nested=False):
             if call_name(c) == "register_evaluation":
                 owner = res.enclosing_class(f)
-                ok = owner is not None and prog.is_subclass(owner, EVALUATOR) and f.name == "evaluate_async"
+                ok = owner is not None and prog.is_subclass(owner, EVALUATOR) and is_self_attr(c.func)
                 ctx.ob("C13.R4", f, c, "register_evaluation caller", ok,
-                       "" if ok else "evaluations are counted outside an evaluator's evaluate_async")
+                       "" if ok else "evaluations are counted outside an evaluator (the pairing with eval_single is "
+                                     "model-checked only for evaluators, R1)")
     # (b) who calls Problem.evaluate
     ALLOWED = {
         "geneticengine.evaluation.api:Evaluator.eval_single": "the one counted evaluation path",
@@ -398,77 +335,127 @@ def rule_r4(ctx: Ctx) -> None:
                        "" if ok else "key_function's uncounted ensure_fitness fallback can evaluate individuals here")
 
 
+def _problem_model(ctx: Ctx, cls, init: FunctionInfo, ev: FunctionInfo, minimize, n_comp: Optional[int], given: dict):
+    """Interpret <cls>.__init__(...) and then <cls>.evaluate(phenotype): the user's fitness function is the symbolic
+    callable FF (returning one signed symbolic number, or a list of them), other user callables are symbolic too."""
+    from ..modelinterp import Interp, Sym, SVal, UNKNOWN
+    prog = ctx.prog
+
+    def sym_result(fv, args):
+        if fv.tag == "FF":
+            return SVal(1, "f") if n_comp is None else [SVal(1, f"f{i + 1}") for i in range(n_comp)]
+        return Sym(fv.tag + "()")
+
+    it = Interp(prog, cls, lambda *_: None, None, record_calls=("Fitness",), max_depth=5, max_traces=64)
+    it.sym_result = sym_result
+    env0: dict[str, Any] = {"self": Sym("self")}
+    a = init.node.args
+    names = [x.arg for x in a.posonlyargs + a.args + a.kwonlyargs][1:]
+    defaults = dict(zip([x.arg for x in a.args][len(a.args) - len(a.defaults):], a.defaults))
+    defaults.update({k.arg: d for k, d in zip(a.kwonlyargs, a.kw_defaults) if d is not None})
+    for p_ in names:
+        if p_ in ("fitness_function", "ff"):
+            env0[p_] = Sym("FF")
+        elif p_ == "minimize":
+            env0[p_] = minimize
+        elif p_ in given:
+            env0[p_] = given[p_]
+        elif p_ in defaults:
+            env0[p_] = it.ev(defaults[p_], {}, 0)
+        else:
+            env0[p_] = Sym(p_)
+    env = {"self": Sym("self"), ev.params[1]: Sym("phenotype")}
+    return it.run(ev, env, prelude=(init, env0))
+
+
 def rule_r5(ctx: Ctx) -> None:
-    """Exactly one invocation of the user's fitness function per Problem.evaluate path."""
+    """Model check of every Problem class: __init__ and evaluate are interpreted with a symbolic fitness function.  On every
+    trace the fitness function is invoked exactly once (R5); the Fitness built has the raw components and, with the default
+    aggregate, 'sum of (-f if minimised else f)' - single: -f / +f (R3)."""
+    from ..modelinterp import Sym, SVal, SumVal, UNKNOWN, Budget
     prog = ctx.prog
     n = 0
-    for f in prog.implementations(PROBLEM, "evaluate"):
-        cls = f.cls
+    for cls in prog.subclasses(PROBLEM):
+        ev = prog.lookup_method(cls, "evaluate")
         init = prog.lookup_method(cls, "__init__")
-        if init is None:
+        if ev is None or init is None or ev.cls is None or ev.cls.fullname == PROBLEM:
             continue
-        # the dict literal(s) stored in self.<d> in __init__
-        stores: dict[str, dict[str, ast.AST]] = {}
-        for a in walk_local(init.node):
-            if isinstance(a, ast.Assign) and len(a.targets) == 1 and is_self_attr(a.targets[0]) and isinstance(a.value, ast.Dict):
-                d = {}
-                for k, v in zip(a.value.keys, a.value.values):
-                    if isinstance(k, ast.Constant) and isinstance(k.value, str):
-                        d[k.value] = v
-                stores[a.targets[0].attr] = d
-        # which parameter is the fitness function: the one stored under the key that evaluate() calls first / named so
-        ff_params = {p for p in init.params if "fitness_function" == p or p == "ff"}
-        if not ff_params or not stores:
+        if not any(p_ in ("fitness_function", "ff") for p_ in init.params):
             continue
-
-        def count_in_value(v: ast.AST, depth: int = 0) -> Optional[int]:
-            """How many times does calling the stored callable *v* invoke the fitness function? (max over 'a or b')"""
-            if isinstance(v, ast.Name):
-                if v.id in ff_params:
-                    return 1
-                if v.id in init.params:
-                    return 0  # another user-supplied callable
-                loc = ctx.res._local_def(init, v.id)
-                if loc is not None:
-                    best = 0
-                    for lp in paths(loc.node.body, unroll_loops=False):
-                        k = sum(1 for st in stmts_on(lp) for x in ast.walk(st)
-                                if isinstance(x, ast.Call) and isinstance(x.func, ast.Name) and x.func.id in ff_params)
-                        best = max(best, k)
-                    return best
-                return None
-            if isinstance(v, ast.BoolOp) and isinstance(v.op, ast.Or):
-                cs = [count_in_value(x, depth + 1) for x in v.values]
-                return None if any(c is None for c in cs) else max(cs)
-            if isinstance(v, ast.Constant) and v.value is None:
-                return 0
-            if isinstance(v, ast.Lambda):
-                return sum(1 for x in ast.walk(v) if isinstance(x, ast.Call) and isinstance(x.func, ast.Name)
-                           and x.func.id in ff_params)
-            return None
-
-        for i, p in enumerate(paths(f.node.body, unroll_loops=False)):
-            if p[-1][1] == "raise":
+        multi = prog.is_subclass(cls, PROBLEM.rsplit(".", 1)[0] + ".MultiObjectiveProblem") or "minimize: list" in norm(init.node)[:2000]
+        optional = [p_ for p_ in init.params[1:] if p_ not in ("fitness_function", "ff", "minimize")]
+        scenarios = []
+        if multi:
+            for mn, k in (([True, False], 2), (True, 2), (False, 2), ([False, True, True], 3)):
+                scenarios.append((mn, k, {}))
+            for p_ in optional:
+                scenarios.append(([True, False], 2, {p_: Sym("USER:" + p_)}))
+            if len(optional) > 1:
+                scenarios.append((True, 2, {p_: Sym("USER:" + p_) for p_ in optional}))
+        else:
+            scenarios = [(True, None, {}), (False, None, {})]
+        bad_count = bad_sign = bad_comp = None
+        undecided = []
+        ntr = 0
+        for mn, k, given in scenarios:
+            try:
+                results = _problem_model(ctx, cls, init, ev, mn, k, given)
+            except Budget:
+                undecided.append("too many interpretations")
                 continue
-            total: Optional[int] = 0
-            detail = []
-            for st in stmts_on(p):
-                for c in [x for x in ast.walk(st) if isinstance(x, ast.Call)]:
-                    fn_ = c.func
-                    if isinstance(fn_, ast.Subscript) and is_self_attr(fn_.value) and isinstance(fn_.slice, ast.Constant) \
-                            and fn_.value.attr in stores:
-                        v = stores[fn_.value.attr].get(fn_.slice.value)
-                        k = count_in_value(v) if v is not None else None
-                        detail.append(f"self.{fn_.value.attr}[{fn_.slice.value!r}] -> {k}")
-                        total = None if (total is None or k is None) else total + k
-            n += 1
-            cond = ", ".join(f"{norm(t)[:40]}={pol}" for t, pol in conds_on(p)) or "unconditional"
-            ctx.ob("C13.R5", f, f.node, f"fitness-function invocations on path [{cond}]"[:140],
-                   (total == 1) if total is not None else None,
-                   "" if total == 1 else f"{total} invocations of the user's fitness function on this path "
-                                         f"({'; '.join(detail)}): the counter counts one evaluation",
-                   witness={"invocations": total, "through": detail})
-    ctx.floor("C13.R5", n, 3, "Problem.evaluate paths")
+            for trace, rv, notes in results:
+                main = trace[getattr(trace, "start", 0):]
+                if any(e.kind == "raise" for e in trace):
+                    continue
+                ntr += 1
+                calls = [e for e in trace if e.kind == "callsym" and e.name == "FF"]
+                scen = {"minimize": mn, "user_callables": sorted(given)}
+                if len(calls) != 1 and bad_count is None:
+                    through = [f"{e.fn.name if e.fn else '?'}:{getattr(e.node, 'lineno', 0)}" for e in calls]
+                    bad_count = (f"{len(calls)} invocations of the user's fitness function in one Problem.evaluate "
+                                 f"(minimize={mn}, user callables {sorted(given) or 'none'}; at {through}): the counter "
+                                 f"counts one evaluation", dict(scen, invocations=len(calls)))
+                fits = [e for e in trace if e.kind == "call" and e.name == "Fitness"]
+                if len(fits) != 1:
+                    undecided.append("evaluate does not build exactly one Fitness on a path")
+                    continue
+                fe = fits[0]
+                agg = fe.args[0] if fe.args else fe.kwargs.get("maximizing_aggregate", UNKNOWN)
+                comps = fe.args[1] if len(fe.args) > 1 else fe.kwargs.get("fitness_components", UNKNOWN)
+                want_comps = [SVal(1, "f")] if k is None else [SVal(1, f"f{i + 1}") for i in range(k)]
+                if comps != want_comps and bad_comp is None:
+                    if isinstance(comps, list) and all(isinstance(x, SVal) for x in comps):
+                        bad_comp = (f"fitness_components are {comps!r}, expected the raw values {want_comps!r}", scen)
+                    else:
+                        undecided.append("fitness_components not followed")
+                if given:
+                    continue   # user-supplied aggregate: polarity is the user's
+                mlist = mn if isinstance(mn, list) else [mn] * (k or 1)
+                if k is None:
+                    want = SVal(-1 if mlist[0] else 1, "f")
+                    got_ok = agg == want
+                else:
+                    want = SumVal(tuple(SVal(-1 if m else 1, f"f{i + 1}") for i, m in enumerate(mlist)))
+                    got_ok = isinstance(agg, SumVal) and sorted(agg.terms, key=repr) == sorted(want.terms, key=repr)
+                if not got_ok:
+                    if isinstance(agg, (SVal, SumVal)):
+                        if bad_sign is None:
+                            bad_sign = (f"with minimize={mn} the maximising aggregate is {agg!r}, expected {want!r}: the "
+                                        f"aggregate prefers the wrong direction", dict(scen, aggregate=repr(agg)))
+                    else:
+                        undecided.append(f"aggregate not followed ({agg!r})")
+        n += ntr
+        und = "; ".join(sorted(set(undecided))[:3])
+        ctx.ob("C13.R5", ev, ev.node, f"{cls.name}: exactly one fitness-function invocation per evaluate",
+               False if bad_count else (None if und and "interpretations" in und else True),
+               bad_count[0] if bad_count else und, witness=bad_count[1] if bad_count else {"traces": ntr})
+        ctx.ob("C13.R3", ev, ev.node, f"{cls.name}: default aggregate is the sum of (-f if minimised else f)",
+               False if bad_sign else (None if und else True), bad_sign[0] if bad_sign else und,
+               witness=bad_sign[1] if bad_sign else {"traces": ntr})
+        ctx.ob("C13.R3", ev, ev.node, f"{cls.name}: fitness_components are the raw values",
+               False if bad_comp else (None if und else True), bad_comp[0] if bad_comp else und,
+               witness=bad_comp[1] if bad_comp else {"traces": ntr})
+    ctx.floor("C13.R5", n, 6, "interpreted Problem.evaluate traces")
 
 
 def run(ctx: Ctx) -> None:
